@@ -98,7 +98,8 @@ pub fn random_u256() -> U256 {
         #[cfg(gm_rs_verif)]
         crate::verif_hooks::candidate(&mut buf);
         ret = u256_from_be_bytes(&buf);
-        if u256_cmp(&ret, &SM2_P_MINUS_ONE) < 0 && ret != [0, 0, 0, 0] {
+        // secret scalars (keys, nonces) must lie in [1, n-1]
+        if u256_cmp(&ret, &crate::fields::fn64::SM2_N) < 0 && ret != [0, 0, 0, 0] {
             break;
         }
     }
